@@ -390,7 +390,9 @@ class SymArray(NativeObj):
 
     def nonzero(self):
         if any(isinstance(x, SV) for x in self.flat):
-            raise Unsupported("nonzero() of symbolic array (data-dependent shape)")
+            # data-dependent shape: fork on every symbolic element
+            I = self._interp()
+            return SymArray([x if not isinstance(x, SV) else (1 if I.truth(x) else 0) for x in self.flat], self.shape).nonzero()
         res = [[] for _ in self.shape]
         for idx in itertools.product(*[range(s) for s in self.shape]):
             off = sum(i * s for i, s in zip(idx, self._strides()))
